@@ -110,7 +110,7 @@ let e2e () = each_line (fun l ->
                   urls := !urls @ [(unrunes (S.sub p 2 (i - 2)), if v = "!" then None else Some (unrunes v))]
       | None -> () end
     else if S.length p > 2 && (S.get p 0) = 'L' then libs := !libs @ [unrunes (S.sub p 2 (S.length p - 2))]) (L.tl parts);
-  let wd = Loop.{ w_existing = L.map of_ascii ["i.png"; "i.pdf"; "i.eps"; "img.png"; "b\\.png"; "c&o.png"; "c\"o.png"; "."; ".."]; w_fs = !files; w_libdirs = !libs; w_unrestricted = unr; w_urls = !urls } in
+  let wd = Loop.{ w_existing = L.map of_ascii ["i.png"; "i.pdf"; "i.eps"; "img.png"; "b\\.png"; "d\\"; "c&o.png"; "c\"o.png"; "."; ".."]; w_fs = !files; w_libdirs = !libs; w_unrestricted = unr; w_urls = !urls } in
   let s = Loop.compile_source (of_ascii name) (nat_of_int md) wd main in
   match s.St.panicked with
   | Some m -> Printf.printf "PANIC %s\n" (runes m)
